@@ -843,6 +843,8 @@ var vfScripts = [][]string{
 	{"MKDIR / d", "LOOKUP /d n", "CREATE / t", "RENAME / t /d n", "LOOKUP /d n", "LOOKUP / t", "READDIR /d"},
 	{"SYMLINK / l zz", "LOOKUP / l", "READLINK /l", "REMOVE / l", "CREATE / l", "LOOKUP / l", "READLINK /l", "GETATTR /l"},
 	{"MKDIR / d", "READDIR /d", "MKDIR /d s", "READDIRPLUS /d", "RMDIR /d s", "READDIR /d", "CREATE /d s", "READDIR /d", "RENAME /d s / s", "READDIR /d", "READDIR /"},
+	{"MKDIR / a", "CREATE /a f", "MKDIR / b", "LOOKUP /b f", "LOOKUP /b g", "RMDIR / b", "RENAME / a / b", "LOOKUP /b f", "LOOKUP /b g", "READDIR /b", "CREATE /b g", "LOOKUP /b g"},
+	{"MKDIR / a", "MKDIR /a s", "CREATE /a/s f", "MKDIR / b", "MKDIR /b s", "LOOKUP /b/s f", "RMDIR /b s", "RMDIR / b", "RENAME / a / b", "LOOKUP /b s", "LOOKUP /b/s f", "READDIRPLUS /b/s"},
 	{"MKDIR / p", "CREATE /p f", "LOOKUP /p f", "REMOVE /p f", "RMDIR / p", "LOOKUP / p", "MKDIR / p", "LOOKUP /p f", "READDIR /p"},
 }
 
